@@ -902,6 +902,14 @@ func runDhseqrNoConv(t *vlib.T, h0 M, ldx int) {
 			}
 			wr, wi := poisoned(n), poisoned(n)
 			lwork := max(1, n)
+			if n > 75 && compz == lapack.SchurHess {
+				// above the crossover: the optimal workspace for the runs with Z, the minimum for the others
+				q := poisoned(1)
+				impl.Dhseqr(job, compz, n, 0, n-1, nil, ldh, nil, nil, nil, lz, q, -1)
+				if !math.IsNaN(q[0]) {
+					lwork = max(lwork, int(q[0]))
+				}
+			}
 			var unconv int
 			if msg := catch(func() {
 				unconv = impl.Dhseqr(job, compz, n, 0, n-1, hs.d, ldh, wr, wi, zd, lz, poisoned(lwork), lwork)
